@@ -46,6 +46,9 @@ pub struct StoreInner {
     pub general_batches: u64,
     /// per handle: epoch of the epoch record most recently read from the database
     pub last_azks_read: HashMap<u16, u64>,
+    /// when enabled: every record applied to the store, in apply order
+    pub log_applies: bool,
+    pub apply_log: Vec<DbRecord>,
 }
 
 #[derive(Clone)]
@@ -75,6 +78,8 @@ impl SimStore {
                 mismatches: vec![],
                 general_batches: 0,
                 last_azks_read: HashMap::new(),
+                log_applies: false,
+                apply_log: vec![],
             })),
         }
     }
@@ -110,6 +115,14 @@ impl SimStore {
         std::mem::take(&mut self.inner.lock().unwrap().mismatches)
     }
 
+    pub fn set_log_applies(&self, on: bool) {
+        self.inner.lock().unwrap().log_applies = on;
+    }
+
+    pub fn applied_for_key(&self, key: &[u8]) -> Vec<DbRecord> {
+        self.inner.lock().unwrap().apply_log.iter().filter(|r| r.get_full_binary_id() == key).cloned().collect()
+    }
+
     pub fn last_azks_read(&self, handle: u16) -> Option<u64> {
         self.inner.lock().unwrap().last_azks_read.get(&handle).copied()
     }
@@ -132,6 +145,9 @@ impl SimStore {
             for r in &records {
                 g.shadow.insert(r.get_full_binary_id(), r.clone());
                 g.writes += 1;
+                if g.log_applies {
+                    g.apply_log.push(r.clone());
+                }
             }
             g.mem.clone()
         };
